@@ -35,8 +35,13 @@ class C15(Property):
             n = rng.choice([2, 3, 4])
             tos = [rng.choice(grid) for _ in range(n)]
             s = nu.Scenario()
+            # some meshes have an unencrypted link: nodes 1 and 2 share no cipher and both allow plain (the others share one with each)
+            plain12 = rng.random() < 0.4
             for i in range(1, n + 1):
-                s.node(i, mode="tun-router", pt=tos[i - 1], claims=["%s/24" % bytes([10, 0, i, 0]).hex()])
+                al = nu.ALG
+                if plain12:
+                    al = {1: "p|1:44160000", 2: "p|3:43c80000"}.get(i, "-|1:44160000,3:43c80000")
+                s.node(i, mode="tun-router", pt=tos[i - 1], claims=["%s/24" % bytes([10, 0, i, 0]).hex()], algos=al)
             for i in range(2, n + 1):
                 s.add("C.%d.1" % i, "A")
             s.tick(3)
